@@ -29,6 +29,11 @@ def decodeAux : List Char → Option Bytes
 def decode (s : String) : Option Bytes :=
   if s == "-" then some [] else decodeAux s.toList
 
+/-- hexadecimal natural number -/
+def nat? (s : String) : Option Nat :=
+  if s.isEmpty then none else
+  s.toList.foldl (fun acc c => do let a ← acc; let v ← val c; pure (a * 16 + v)) (some 0)
+
 def bool? (s : String) : Option Bool :=
   if s == "1" then some true else if s == "0" then some false else none
 
